@@ -11,4 +11,7 @@ python3 tools/sig_check.py --regen
 # debug and release side by side, each in its own target directory (the ones tools/check.py and tools/memsize_check.py use)
 ( cd harness && ( CARGO_TARGET_DIR="$PWD/../.cache/target" timeout 1500 cargo build --offline & CARGO_TARGET_DIR="$PWD/../.cache/target-rel" timeout 1500 cargo build --offline --release & wait ) )
 [ -x .cache/target/debug/cache_trace ] && [ -x .cache/target-rel/release/cache_trace ]
+# warm the caches of the two translator ties (their verdicts are computed again by the checks)
+python3 tools/body_check.py > /dev/null 2>&1 || true
+python3 tools/op_check.py > /dev/null 2>&1 || true
 echo setup-ok
